@@ -569,9 +569,24 @@ def mul_rules(prog, chk, pid):
     # ---- table: entry_0 = affine(P), doubler' = doubler.double()[.scale()], entry_{j+1} = affine(doubler')
     fi, ex, res = run("_maybe_precompute")
     where = "%s:%d" % (fi.file, fi.lineno)
-    apps = [e for e in res.events if e.kind == "mutate" and e.d.get("how") == "append"]
     news = [e for e in res.events if e.kind == "new" and e.d["cls"].name == "PointJacobi"]
-    ok, why = len(news) == 1 and len(apps) == 2, "expected one start point and two appends (first entry, loop entries)"
+    # the table that is published: its entries in construction order, each with "inside the doubling loop or not" (list literal, append before the loop
+    # and append in the loop are all ways of putting an entry there)
+    pub = [e for e in res.events if e.kind == "setattr" and e.d["name"].endswith("__precompute") and unsnap(e.d["value"]).op == "ref"]
+    entries = []
+    if pub and res.state is not None:
+        tobj = res.state.heap.get(unsnap(pub[-1].d["value"]).args[0])
+        if tobj is not None and tobj.kind == "list":
+            for it in tobj.items:
+                if tobj.exact:
+                    entries.append((it, ()))
+                else:
+                    val, ctx_, how = it
+                    if how not in ("init", "append"):
+                        entries = []
+                        break
+                    entries.append((val, tuple(f for f in ctx_ if f[0] == "loop")))
+    ok, why = len(news) == 1 and len(entries) == 2, "expected one start point and a table with a first entry and the loop's entries (found %d table steps)" % len(entries)
     loops = [l for l in ex.loops.values() if "doubler" in l.next]
     if ok:
         a = news[0].d["args"]
@@ -607,9 +622,9 @@ def mul_rules(prog, chk, pid):
             return True
 
         if ok:
-            first = [e for e in apps if not any(f[0] == "loop" for f in e.ctx)]
-            inloop = [e for e in apps if any(f[0] == "loop" and f[1] == lr.id for f in e.ctx)]
-            ok = len(first) == 1 and len(inloop) == 1 and affine_pair(first[0].d["value"], d0) and affine_pair(inloop[0].d["value"], nxt)
+            first = [v for v, lf in entries if not lf]
+            inloop = [v for v, lf in entries if any(f[1] == lr.id for f in lf)]
+            ok = len(first) == 1 and len(inloop) == 1 and affine_pair(first[0], d0) and affine_pair(inloop[0], nxt)
             why = "a table entry is not (doubler.x(), doubler.y()): the multiplication adds table entries with Z = 1, so they must be affine coordinates of 2^j * P"
     chk.require(ok, P("mul-table-affine-doublings"), fi.qualname, "entry_0 = (P.x(), P.y()); doubler = doubler.double().scale(); entry_j = (doubler.x(), doubler.y())", where,
                 "the precomputed table holds the affine coordinates of P, 2P, 4P, ... (what _mul_precompute adds with Z = 1)", why)
